@@ -546,4 +546,75 @@ theorem plan_WR (st : State) (op : Op) (si : Nat) (s1 : Site) (acts : List Act)
         obtain ⟨rfl, rfl, rfl⟩ := h
         exact local_case s hs (by intro _ _ _ e; cases e) hl
 
+/-! #### schedules, and what a step returns -/
+
+/-- every batch containing a change is followed by a later batch containing a recompute item -/
+def Requested : List (List Item) → Prop
+  | [] => True
+  | b :: rest => ((∃ m, Item.write m ∈ b) → ∃ b' ∈ rest, Item.pass ∈ b') ∧ Requested rest
+
+theorem Requested.at {pre : List (List Item)} {b : List Item} {post : List (List Item)}
+    (h : Requested (pre ++ b :: post)) (m : List Cell) (hw : Item.write m ∈ b) :
+    ∃ b' ∈ post, Item.pass ∈ b' := by
+  induction pre with
+  | nil => exact h.1 ⟨m, hw⟩
+  | cons x xs ih => exact ih h.2
+
+theorem step_obs {st st' : State} {op : Op} {evs : List Ev} {g : List Cell}
+    (h : step st op = (st', .obs evs g)) :
+    ∃ si s1 acts, plan st op = some (si, s1, acts) ∧ evs = (execActs s1 acts).2 ∧ g = touchedOf acts ∧
+      st'.sites = setSite si (execActs s1 acts).1 st.sites := by
+  unfold step at h
+  split at h
+  · cases h
+  · split at h
+    · cases h
+    · rename_i si s1 acts hp
+      simp only [Prod.mk.injEq, Out.obs.injEq] at h
+      obtain ⟨rfl, h2, h3⟩ := h
+      exact ⟨si, s1, acts, hp, h2.symm, h3.symm, rfl⟩
+
+theorem step_d (st : State) (op : Op) : (step st op).1.d = st.d := by
+  unfold step
+  split
+  · rfl
+  · split <;> rfl
+
+theorem execActs_defs (acts : List Act) : ∀ (s : Site), (execActs s acts).1.defs = s.defs := by
+  induction acts with
+  | nil => intro s; rfl
+  | cons a rest ih =>
+    intro s
+    cases a <;> simp only [execActs] <;> rw [ih]
+
+theorem execActs_roomEv (acts : List Act) (d : RoomDef) (h : Act.roomEv d ∈ acts) :
+    ∀ (s : Site), Ev.roomEv d ∈ (execActs s acts).2 := by
+  induction acts with
+  | nil => cases h
+  | cons a rest ih =>
+    intro s
+    rcases List.mem_cons.mp h with h' | h'
+    · subst h'; simp [execActs]
+    · cases a <;> simp only [execActs] <;> first
+        | exact ih h' _
+        | exact List.mem_cons_of_mem _ (ih h' _)
+
+theorem findDef_setDef (d : RoomDef) (l : List RoomDef) : findDef d.room (setDef d l) = some d := by
+  unfold setDef
+  induction l with
+  | nil => simp [findDef]
+  | cons x xs ih =>
+    by_cases hx : x.room = d.room
+    · simpa [List.filter, hx] using ih
+    · simpa [List.filter, hx, findDef] using ih
+
+theorem getElem?_setSite (i : Nat) (s : Site) (l : List Site) (x : Site) (h : l[i]? = some x) :
+    (setSite i s l)[i]? = some s := by
+  unfold setSite
+  have : i < l.length := by
+    rcases Nat.lt_or_ge i l.length with h' | h'
+    · exact h'
+    · rw [List.getElem?_eq_none h'] at h; cases h
+  simp [this]
+
 end Discret.Events
